@@ -74,6 +74,7 @@ func main() {
 	sharedLatest := flag.Bool("sharedlatest", false, "stress: also share one LookupOptions{LatestAnchor:true}")
 	variant := flag.String("variant", "", "replay: \"\" or \"writer\"")
 	mutant := flag.String("mutant", "", "lin: \"splitadd\" records a batch as atomic but adds it triple by triple (sensitivity check of the harness itself)")
+	predKind := flag.String("predkind", "auto", "reference semantics for lookups with a predicate: auto (probe the store) | strict | loose")
 	flag.Parse()
 	if flag.NArg() > 0 {
 		die("unexpected arguments %v", flag.Args())
@@ -87,6 +88,17 @@ func main() {
 		die("unknown -mutant %q", *mutant)
 	}
 	buildVocab()
+	switch *predKind {
+	case "auto":
+		predKindStrict = probePredKind()
+	case "strict":
+		predKindStrict = true
+	case "loose":
+		predKindStrict = false
+	default:
+		die("unknown -predkind %q", *predKind)
+	}
+	fmt.Fprintf(os.Stderr, "h_conc: reference predicate-kind semantics: strict=%v (%s)\n", predKindStrict, *predKind)
 	startWatchdog(*mode, *timeout)
 
 	switch *mode {
